@@ -432,6 +432,72 @@ func TestC19(t *testing.T) {
 			r.Violation(key, []string{"republish_through_joe"}, map[string]any{"kind": kind, "workers": workers, "per_worker": per, "findings": findings}, "C19: %s", findings[0])
 		}
 	}
+	// (L) tens of thousands of publications through one automatic-ID replayer: the copies handed out
+	// at the beginning are re-read at the end (IDs and content as they were)
+	nl := r.N(4, 40)
+	for i := 0; i < nl; i++ {
+		if !r.Mine("L", i) {
+			continue
+		}
+		key := fw.Key("L", i)
+		rng := r.Rand("L", i)
+		var rp sse.Replayer
+		kind := "finite"
+		if i%2 == 0 {
+			rp, _ = sse.NewFiniteReplayer(2+rng.IntN(6), true)
+		} else {
+			kind = "valid"
+			rp, _ = sse.NewValidReplayer(time.Hour, true)
+		}
+		start := uint64(0)
+		if i%4 >= 2 {
+			if st := []uint64{1<<63 - 40000, 1<<32 - 9000, 99990}[rng.IntN(3)]; mon.SetAutoIDCounter(rp, st) {
+				start = st
+			}
+		}
+		total := 18000 + rng.IntN(8000)
+		r.Begin(key, fmt.Sprintf("%s replayer, %d publications of one message, counter starts at %d", kind, total, start))
+		msg := &sse.Message{}
+		msg.AppendData("tick")
+		type kept struct {
+			m     *sse.Message
+			state string
+			at    int
+		}
+		var keep []kept
+		bad := false
+		for k := 0; k < total && !bad; k++ {
+			got, err := rp.Put(msg, []string{"t"})
+			if err != nil || got == nil {
+				r.Violation(key, []string{"republish_rejected"}, map[string]any{"publication": k + 1, "err": fmt.Sprint(err)}, "C19: Put #%d of the same message failed: %v", k+1, err)
+				bad = true
+				break
+			}
+			if want := strconv.FormatUint(start+uint64(k), 10); got.ID.String() != want {
+				r.Violation(key, []string{"auto_ids_not_consecutive"}, map[string]any{"publication": k + 1, "got": got.ID.String(), "want": want}, "C19: publication #%d got ID %q, want %q", k+1, got.ID.String(), want)
+				bad = true
+			}
+			if k < 40 || k%997 == 0 {
+				keep = append(keep, kept{got, msgState(got), k})
+			}
+		}
+		r.Count("puts", int64(total))
+		r.Count("long_republish_histories", 1)
+		r.Eval(fw.Hash("L", strconv.Itoa(i)), true)
+		for _, kp := range keep {
+			if bad {
+				break
+			}
+			if st := msgState(kp.m); st != kp.state {
+				r.Violation(key, []string{"put_mutates_earlier_returned_message"}, map[string]any{"kind": kind, "publications": total, "returned_by_put": kp.at + 1, "before": kp.state, "after": st},
+					"C19: after %d publications the copy returned by Put #%d is no longer what it was (%s -> %s)", total, kp.at+1, kp.state, st)
+				bad = true
+			}
+		}
+		if msgState(msg) != "\"data: tick\\n\\n\" id=false/\"\" type=false/\"\" retry=0" {
+			r.Violation(key, []string{"put_mutates_argument"}, map[string]any{"after": msgState(msg)}, "C19: the published message changed after %d publications", total)
+		}
+	}
 	// (E) one message used by several goroutines at once, each publishing it to its own replayer,
 	// cloning and encoding it: none of these may write to it (real goroutines, race detector)
 	ne := r.N(600, 12000)
